@@ -2,6 +2,8 @@
 from fractions import Fraction
 from itertools import product
 
+import json
+
 import numpy as np
 
 from symx import ops as O
@@ -227,6 +229,95 @@ def h_csq(ctx, d, N, kind, box, qvec, sel=None, types=None):
         full = sqm.sq(ru.Snapshots(nsnapshots=1, snapshots=[snap]), qvector=C.iarr(ctx, qvec)).getresults()
         for gi in range(len(keys)):
             ctx.oblige(f"A=1 -> total S[{gi}]", O.eq(a1["Sq"].values[gi], full["Sq"].values[gi], atol=3e-6))
+
+
+
+# ---------------------------------------------------------------- machine-integer side query (from the AST)
+def prelude(tier, seed):
+    """The symbolic runs use mathematical integers for the pair counts.  The code, however, narrows the boolean selection to
+    a machine integer type before it is used as histogram weight, and numpy returns weighted counts in the dtype of the weights.
+    For every integer cast found in conditional_gr's source z3 decides whether a per-particle bin count (at most N-1 selected
+    partners) can exceed the type's range for some N <= 10^7; a witness N is replayed on the real code with a dense cluster and
+    reported only if conditional g(r) of an all-true selection then differs from g(r)."""
+    import ast
+    import importlib
+    import inspect
+    import time
+    import z3
+    t0 = time.time()
+    g = importlib.import_module("PyMatterSim.static.gr")
+    out = dict(name="integer_capacity", obligations=0, discharged=0, undecided=0, samples=[], violations=[], errors=[],
+               functions=["PyMatterSim.static.gr.conditional_gr"], lemmas=[])
+    bits = {"int8": 8, "int16": 16, "int32": 32, "int64": 64, "uint8": 8, "uint16": 16, "uint32": 32, "uint64": 64, "intc": 32, "int_": 64,
+            "short": 16, "byte": 8}
+    try:
+        tree = ast.parse(inspect.getsource(g.conditional_gr).lstrip())
+    except Exception as e:      # source not available: nothing is claimed by this side query
+        out["samples"].append(dict(obligation="integer capacity: source not parsed - skipped", verdict="skipped"))
+        out["wall_s"] = out["solver_s"] = time.time() - t0
+        return [out]
+    casts = []
+    for node in ast.walk(tree):
+        if isinstance(node, ast.Call) and isinstance(node.func, ast.Attribute) and node.func.attr == "astype" and node.args:
+            a = node.args[0]
+            name = a.attr if isinstance(a, ast.Attribute) else (a.id if isinstance(a, ast.Name) else (a.value if isinstance(a, ast.Constant) else None))
+            if isinstance(name, str) and name in bits:
+                casts.append((name, bits[name], not name.startswith("u")))
+    for name, b, signed in casts:
+        N, cnt = z3.Ints("N cnt")
+        cap = 2 ** (b - 1) - 1 if signed else 2 ** b - 1
+        s = z3.Solver()
+        s.set("timeout", 10000)
+        s.add(N >= 2, N <= 10 ** 7, cnt >= 0, cnt <= N - 1, cnt > cap)
+        r = s.check()
+        out["obligations"] += 1
+        if r == z3.unsat:
+            out["discharged"] += 1
+            out["samples"].append(dict(obligation=f"astype({name}): every per-particle bin count <= N-1 fits for all N <= 10^7", verdict="unsat"))
+            continue
+        if r != z3.sat:
+            out["undecided"] += 1
+            continue
+        n = max(int(s.model().eval(N).as_long()), cap + 2)
+        n = min(n, cap + 40)
+        rep = _replay_capacity(n)
+        if rep is None:
+            out["discharged"] += 1        # the narrow type is not what the counts are accumulated in: no concrete effect
+            out["samples"].append(dict(obligation=f"astype({name}): overflow witness N={n} not reproduced on the real code", verdict="sat, not reproduced"))
+        else:
+            import hashlib
+            import os
+            d = os.path.join(os.environ.get("VERIF_OUT") or os.path.dirname(os.path.dirname(os.path.abspath(__file__))), "replays")
+            os.makedirs(d, exist_ok=True)
+            path = os.path.join(d, f"C13_integer_capacity_{name}.json")
+            json.dump(dict(property="C13", harness="integer_capacity", cast=name, particles=n, observed=rep[0], expected=rep[1],
+                           note="conditional_gr(all-true selection) vs gr(...) on a dense cluster: weighted counts overflow the cast type"),
+                      open(path, "w"), indent=1)
+            out["violations"].append(dict(harness="integer_capacity", config=dict(cast=name, N=n), obligation=f"astype({name}) holds counts up to N-1",
+                                          replay=path, exception=None, failed=[f"gA {rep[0]} vs gr {rep[1]}"]))
+    out["wall_s"] = out["solver_s"] = time.time() - t0
+    return [out]
+
+
+def _replay_capacity(n):
+    """n particles in a small cluster inside a large box, one wide bin: every particle has n-1 partners in the same bin.
+    returns (observed, expected) if conditional_gr of the all-true selection differs from the total g(r), else None"""
+    import importlib
+    g = importlib.import_module("PyMatterSim.static.gr")
+    ru = importlib.import_module("PyMatterSim.reader.reader_utils")
+    rng = np.random.default_rng(7)
+    L = 40.0
+    pos = 20.0 + rng.uniform(-0.5, 0.5, size=(n, 2))
+    snap = ru.SingleSnapshot(timestep=0, nparticle=n, particle_type=np.ones(n, dtype=int), positions=pos, boxlength=np.array([L, L]),
+                             boxbounds=np.array([[0.0, L], [0.0, L]]), realbounds=None, hmatrix=np.diag([L, L]))
+    S = ru.Snapshots(nsnapshots=1, snapshots=[snap])
+    ppp = np.array([1, 1])
+    a = g.conditional_gr(snap, condition=np.ones(n, dtype=bool), conditiontype=None, ppp=ppp, rdelta=10.0)
+    b = g.gr(S, ppp=ppp, rdelta=10.0).getresults()
+    x, y = np.asarray(a["gA"].values, dtype=float), np.asarray(b["gr"].values, dtype=float)
+    if x.shape == y.shape and np.allclose(x, y, rtol=1e-6, atol=1e-9):
+        return None
+    return [float(v) for v in x], [float(v) for v in y]
 
 
 def cfg_gr(tier, seed):
